@@ -385,6 +385,8 @@ def run_extractor(prog, which, sh, choices=None):
 
 
 def check(prog, rep):
+    from . import pitfalls as _pit
+    rep.section(_pit.report, prog, rep, 'R05.P', ['src/optyx/analysis.py'], ('P1', 'P2', 'P3'))
     al.selfcheck()
     shapes = accepted_shapes()
     rep.saw("abstract shapes accepted as linear", [s.label() for s in shapes])
